@@ -347,6 +347,19 @@ type Object struct {
 	interfaces            []*Interface
 	// Interim alternative to throwing an error during schema definition at run-time
 	err error
+	// what the constructor, Fields() and Interfaces() each parked; err is the first of them
+	nameErr, fieldsErr, interfacesErr error
+}
+
+// parkErrors keeps an error parked by one lazy initialiser from being wiped by another
+func (gt *Object) parkErrors() {
+	gt.err = gt.nameErr
+	if gt.err == nil {
+		gt.err = gt.fieldsErr
+	}
+	if gt.err == nil {
+		gt.err = gt.interfacesErr
+	}
 }
 
 // IsTypeOfParams Params for IsTypeOfFn()
@@ -383,12 +396,12 @@ func NewObject(config ObjectConfig) *Object {
 
 	err := invariant(config.Name != "", "Type must be named.")
 	if err != nil {
-		objectType.err = err
+		objectType.err, objectType.nameErr = err, err
 		return objectType
 	}
 	err = assertValidName(config.Name)
 	if err != nil {
-		objectType.err = err
+		objectType.err, objectType.nameErr = err, err
 		return objectType
 	}
 
@@ -437,7 +450,8 @@ func (gt *Object) Fields() FieldDefinitionMap {
 		configureFields = fields()
 	}
 
-	gt.fields, gt.err = defineFieldMap(gt, configureFields)
+	gt.fields, gt.fieldsErr = defineFieldMap(gt, configureFields)
+	gt.parkErrors()
 	gt.initialisedFields = true
 	return gt.fields
 }
@@ -455,12 +469,14 @@ func (gt *Object) Interfaces() []*Interface {
 		configInterfaces = iface
 	case nil:
 	default:
-		gt.err = fmt.Errorf("Unknown Object.Interfaces type: %T", gt.typeConfig.Interfaces)
+		gt.interfacesErr = fmt.Errorf("Unknown Object.Interfaces type: %T", gt.typeConfig.Interfaces)
+		gt.parkErrors()
 		gt.initialisedInterfaces = true
 		return nil
 	}
 
-	gt.interfaces, gt.err = defineInterfaces(gt, configInterfaces)
+	gt.interfaces, gt.interfacesErr = defineInterfaces(gt, configInterfaces)
+	gt.parkErrors()
 	gt.initialisedInterfaces = true
 	return gt.interfaces
 }
